@@ -326,7 +326,54 @@ pub fn content_class(rng: &mut Rng, class: u32, n: usize) -> Vec<u8> {
             }
             v
         }
+        7 | 8 => {
+            // text ending in a UTF-8 edge case: a multi-byte character cut short, overlong forms,
+            // surrogates, beyond U+10FFFF, the extremes of each encoded length; class 8 puts a valid
+            // ERROR-CODE header (class 3..6, number 0..99) in front so that the text is a reason phrase
+            const TAILS: [&[u8]; 18] = [
+                &[0xc3],
+                &[0xe2, 0x82],
+                &[0xf0, 0x9f, 0x98],
+                &[0xf0, 0x9f],
+                &[0xc0, 0x80],
+                &[0xe0, 0x80, 0x80],
+                &[0xed, 0xa0, 0x80],
+                &[0xf4, 0x90, 0x80, 0x80],
+                &[0xf5, 0x80, 0x80, 0x80],
+                &[0x80],
+                &[0xc3, 0xa9],
+                &[0xe2, 0x82, 0xac],
+                &[0xf0, 0x9f, 0x98, 0x80],
+                &[0xef, 0xbf, 0xbf],
+                &[0xf4, 0x8f, 0xbf, 0xbf],
+                &[0xef, 0xbb, 0xbf],
+                &[0xc2, 0x80],
+                &[0x00],
+            ];
+            let tail = TAILS[rng.usize(TAILS.len())];
+            let head: usize = if class == 8 { 4 } else { 0 };
+            if n < head + tail.len() {
+                return rng.bytes(n);
+            }
+            let mut v = Vec::with_capacity(n);
+            if class == 8 {
+                v.extend_from_slice(&[0, 0, 3 + rng.below(4) as u8, rng.below(100) as u8]);
+            }
+            v.extend_from_slice(text_exact(rng, n - head - tail.len()).as_bytes());
+            v.extend_from_slice(tail);
+            v
+        }
+        9 => {
+            // text starting with a prefix that has a meaning: the RFC 8489 nonce cookie (followed by
+            // fewer / exactly / more than the four characters of security feature bits)
+            let mut v = b"obMatJos2".to_vec();
+            while v.len() < n {
+                v.push(*rng.pick(b"ABCDEFGHIJKLMNOPQRSTUVWXYZabcdefghijklmnopqrstuvwxyz0123456789+/="));
+            }
+            v.truncate(n);
+            v
+        }
         _ => rng.bytes(n),
     }
 }
-pub const CONTENT_CLASSES: u32 = 7;
+pub const CONTENT_CLASSES: u32 = 10;
